@@ -30,7 +30,7 @@ def FLOORS(tier):
     q = tier == "quick"
     f = {"expected-keyerror": 100 if q else 3000, "value-checks": 3000 if q else 10 ** 5,
          "alias:self-operand": 60 if q else 2000, "operand:raw-dict": 300 if q else 10 ** 4, "typed-coefficients": 60, "division:exact-rational": 15,
-         "big-product:spin": 4, "big-product:bool": 4, "underflow-to-zero": 40}
+         "big-product:spin": 4, "big-product:bool": 4, "underflow-to-zero": 15, "huge-integers": 20}
     for o in OPS:
         for ts in TYPES.values():
             for t in ts:
@@ -150,10 +150,43 @@ def tiny_quotient(ctx, rng):
         ctx.violation(op + ":wrong-result:underflow", "got %r expected %r" % (dict(r), exp), w)
 
 
+def huge_ints(ctx, rng):
+    """integer coefficients around 2**62: Python integers do not wrap, neither may an evaluation or a sum of models"""
+    kind = rng.choice(["bool", "spin"])
+    tn = rng.choice(TYPES[kind])
+    T = getattr(L, tn)
+    labs = gen.labels(rng, 3, matrix=L.is_matrix(T))
+    c = 2 ** 62
+    terms = {(labs[0],): c, (labs[1],): c + rng.randint(0, 5), (labs[0], labs[1]): rng.choice([c, -c + 1]), (): rng.choice([0, c])}
+    a = gen.model_of(T, terms)
+    w = {"kind": kind, "type": tn, "terms": terms, "class": "integers around 2**62"}
+    vals = (0, 1) if kind == "bool" else (1, -1)
+    p = ref.from_raw(kind, terms)
+    fn = {"bool": ("qubo_value" if L.is_deg2(T) else "pubo_value"), "spin": ("quso_value" if L.is_deg2(T) else "puso_value")}[kind]
+    ctx.cat("huge-integers")
+    for x0 in vals:
+        for x1 in vals:
+            x = {labs[0]: x0, labs[1]: x1, labs[2]: vals[0]}
+            want = p.value(x)
+            for how, f in (("method", lambda: a.value(x)), (fn, lambda: getattr(L.utils, fn)(x, a)), (fn + ":dict", lambda: getattr(L.utils, fn)(x, dict(a)))):
+                ok, got = ctx.call("value", f, _w=w)
+                if not ok:
+                    return
+                ctx.count("value-checks")
+                if got != want:
+                    ctx.violation("value:wrong-value:huge-integers", "%s at %r gives %r, exact value %r" % (how, x, got, int(want)), w)
+                    return
+    ok, r = ctx.call("add", lambda: a + a, _w=w)
+    if ok and ref.from_raw(kind, dict(r)) != p + p:
+        ctx.violation("add:wrong-result:huge-integers", "a + a = %r" % (dict(r),), w)
+
+
 def case(ctx, rng, idx):
     r0 = rng.random()
     if r0 < 0.004:
         return big_product(ctx, rng)
+    if r0 < 0.012:
+        return huge_ints(ctx, rng)
     if r0 < 0.02:
         return tiny_quotient(ctx, rng)
     kind = rng.choice(["bool", "spin"])
@@ -162,8 +195,8 @@ def case(ctx, rng, idx):
     matrix_only = rng.random() < 0.35
     labs_lab = gen.labels(rng, 4)
     labs_mat = gen.labels(rng, 4, matrix=True)
-    if any(isinstance(x, bool) for x in labs_lab):
-        labs_mat = [x + 2 for x in labs_mat]        # True == 1 and False == 0 as dict keys: keep the two label sets disjoint
+    if any(isinstance(x, (bool, float)) for x in labs_lab):
+        labs_mat = [x + 20 for x in labs_mat]       # True == 1, 2.0 == 2 as dict keys: keep the two label sets of one case disjoint
 
     def new_model(tn=None):
         tn = tn or rng.choice(tnames)
@@ -349,6 +382,10 @@ def case(ctx, rng, idx):
         for k, v in r.items():
             if k != type(r).squash_key(k) or not v:
                 fail("%s:non-canonical" % op, "stored key %r value %r" % (k, v))
+                return
+            # ... and, independently of the library's own key function: labels of one type are stored in increasing order
+            if len(k) >= 2 and len({type(x) for x in k}) == 1 and type(k[0]) in (int, str, float) and list(k) != sorted(k):
+                fail("%s:non-canonical:key-not-sorted" % op, "stored key %r is not in increasing order" % (k,))
                 return
         if len(r) != len(exp.d):
             fail("%s:non-canonical" % op, "%d stored terms for %d distinct monomials" % (len(r), len(exp.d)))
